@@ -12,6 +12,7 @@ import os
 import time
 
 from . import common
+from .sched import HarnessError
 
 
 def _warm():
@@ -85,7 +86,16 @@ def run_subtree(item):
         prefix = stack.pop()
 
         try:
-            res = simnet.execute(scn, prefix, base)
+            try:
+                res = simnet.execute(scn, prefix, base)
+            except HarnessError as exc:
+                if 'did not unwind' not in str(exc):
+                    raise
+
+                # a starved machine can stall a thread beyond the teardown time-out: executions are deterministic, run it again
+                st['retries'] = st.get('retries', 0) + 1
+                res = simnet.execute(scn, prefix, base)
+
         except BaseException as exc:
             raise RuntimeError(f'harness failure in scenario {scn.get("name")!r} base {base} prefix {prefix}: {type(exc).__name__}: {exc}') from exc
 
